@@ -94,4 +94,18 @@ for case in range(6 if tier == 'quick' else 20):
     q.fit_tilt(inplace=True)
     ok = ok and len(q.tilt) == 2 * nseg
     b.check(ok, {'nseg': nseg, 'pixelscale': ps})
-emit([a, b])
+d_ = Bounded('plane.DispersiveTilt::on_the_trace_at_the_arc_length', 'quadratic and cubic traces, linear dispersion, wavelengths on both sides of the reference (negative and positive distances along the trace)',
+             'the dispersive displacement lies on the trace polynomial at the signed arc length the dispersion polynomial maps to the wavelength')
+for trace, disp in (([0.8, 0.3, 0.1], [2e-9 / 1e-3, 600e-9]), ([0.5, -0.4, 0.2, 0.0], [1e-9 / 1e-3, 500e-9]), ([2.0, 0.0, 0.05], [-3e-9 / 1e-3, 700e-9])):
+    for wl in (disp[1] - 40e-9, disp[1] - 5e-9, disp[1], disp[1] + 12e-9, disp[1] + 60e-9):
+        with d_.case({'trace': trace, 'dispersion': disp, 'wavelength': wl}):
+            t = lentil.DispersiveTilt(trace=trace, dispersion=disp)
+            x, y = t.shift(wavelength=wl, xs=0.0, ys=0.0)
+            x, y = float(np.ravel(x)[0]), float(np.ravel(y)[0])
+            dist = (wl - disp[1]) / disp[0]                       # signed distance along the trace
+            xs_ = np.linspace(0.0, x, 20001)
+            arc = np.trapz(np.sqrt(1 + np.polyval(np.polyder(trace), xs_) ** 2), xs_)       # signed: x < 0 gives a negative arc
+            d_.check(bool(abs(y - np.polyval(trace, x)) < 1e-12 and abs(arc - dist) < 1e-6 * max(1e-3, abs(dist))),
+                     {'trace': trace, 'wavelength': wl, 'x': x, 'arc': float(arc), 'distance': float(dist)})
+
+emit([a, b, d_])
